@@ -20,7 +20,7 @@ RULE = ("programs of 1..10 statements are drawn from the statement grammar (assi
         "continuation, strings holding '#', '>>>' and '...', calls of earlier definitions, reads of earlier variables, "
         "top-level await, async def, async with); every statement carries a unique id.  Each program is written down in "
         "three random layouts (prompt style per statement, base indent 0/4/8 by spaces or tabs, wants = exact "
-        "accumulated output placed at random, prose and blank lines, google 'Example:' block or freeform, the example "
+        "accumulated output placed at random, prose and blank lines, google 'Example:' block or freeform, one layout in five belongs to a module under test whose globals hold sentinel values under the names the program binds, the example "
         "after a want / blank line / prose written at another indentation 0/2/4/6 than the one before).  A case is "
         "one (program, layout); it is non-trivial when it has a multi-line or compound statement and at least one want; "
         "distinct cases are counted by the hash of the docstring text")
@@ -43,7 +43,7 @@ def required_cells(tier):
     cells += ['wrapper:google', 'wrapper:freeform', 'indent:tabs', 'indent:0', 'indent:4', 'indent:8',
               'coroutine-part', 'want-placed', 'multi-part', 'unprefixed-string-line', 'comment-only-skipped',
               'verbose:0', 'verbose:3', 'reindent-after-want:less', 'reindent-after-want:more',
-              'reindent-after-separator']
+              'reindent-after-separator', 'hosted-in-module', 'module-globals-rebound']
     return cells
 
 
@@ -54,20 +54,57 @@ def gen_case(seed):
     return rng, stmts
 
 
+def host_module(ctx, case, ref, rng):
+    """a module under test whose globals carry the same names the program binds (sentinel values): the doctest
+    starts from a copy of them and every rebinding must stay in force for the rest of the doctest"""
+    import os
+    names = sorted(harness.user_bindings(ref.ns))
+    chosen = [n for n in names if rng.random() < 0.6]
+    modname = 'host_%d_%d_%d_%d_zz' % (ctx.seed, ctx.shard, case['index'], case['layout_no'])
+    path = os.path.join(ctx.tmp, modname + '.py')
+    with open(path, 'w') as f:
+        f.write('# module under test: globals that the doctest rebinds\n')
+        for n in chosen:
+            f.write('%s = "MODULE-GLOBAL:%s"\n' % (n, n))
+        f.write('def host():\n    return 1\n')
+    return path, modname, chosen
+
+
 def check_layout(ctx, case, stmts, ref, rng):
     """one (program, layout): returns nothing, reports into ctx"""
+    import os
+    import sys
     layout = gp.Layout.random(rng)
     doc, info = layout.render(stmts, ref.outs)
     verbose = 3 if rng.random() < 0.12 else 0
     ctx.evaluation()
     case = dict(case, doc=doc, layout=layout.describe(), verbose=verbose, features=info['features'])
     only_comments = all(st.comment_only for st in stmts)
+    hosted = None
+    if case['layout_no'] == 2 and rng.random() < 0.6:
+        hosted = host_module(ctx, case, ref, rng)
+        case['module_globals'] = hosted[2]
+    try:
+        _check_layout(ctx, case, stmts, ref, rng, layout, doc, info, verbose, only_comments, hosted)
+    finally:
+        if hosted is not None:
+            try:
+                os.unlink(hosted[0])
+            except OSError:
+                pass
+            sys.modules.pop(hosted[1], None)
 
+
+def _check_layout(ctx, case, stmts, ref, rng, layout, doc, info, verbose, only_comments, hosted):
     def bad(mech, msg, **kw):
-        ctx.violation(mech, msg + '\n--- docstring ---\n' + doc, case, **kw)
+        ctx.violation(mech, msg + ('\n(the doctest belongs to a module whose globals %r hold sentinel values)' % (
+            hosted[2],) if hosted else '') + '\n--- docstring ---\n' + doc, case, **kw)
 
     try:
-        exs, wl, printed = harness.collect(doc, style=info['style'])
+        if hosted:
+            exs, wl, printed = harness.collect(doc, style=info['style'], callname='host', modpath=hosted[0])
+        else:
+            exs, wl, printed = harness.collect(doc, style=info['style'])
     except Exception as ex:
         bad('collect-raised', 'parse_docstr_examples raised %r on a well formed docstring' % (ex,))
         return
@@ -90,6 +127,10 @@ def check_layout(ctx, case, stmts, ref, rng):
     ctx.cell('verbose:%d' % verbose)
     if info['wants']:
         ctx.cell('want-placed')
+    if hosted:
+        ctx.cell('hosted-in-module')
+        if hosted[2]:
+            ctx.cell('module-globals-rebound')
     for f in info['features']:
         if f.startswith('reindent'):
             ctx.cell(f)
